@@ -85,6 +85,9 @@ World == [clients |-> [c \in Clients |-> [auth |-> Reg[c].auth, app |-> Reg[c].a
                                           \* the storage holds a public key for the client: private_key_jwt clients - and cw, which authenticates with its
                                           \* secret and registered a key for another purpose (signing request objects). An assertion signed with that key
                                           \* is a credential of the wrong kind for cw.
-                                          hasKey |-> Reg[c].auth = "pkjwt" \/ c = "cw"]],
+                                          hasKey |-> Reg[c].auth = "pkjwt" \/ c = "cw",
+                                          \* the resource servers the client's tokens are meant for (the storage's audience of its authorization
+                                          \* requests): the client itself, except for cx - two resource servers, the client not among them
+                                          aud |-> IF c = "cx" THEN {"https://api-1.example.test", "https://api-2.example.test"} ELSE {}]],
           users |-> Users, uris |-> URIs]
 =============================================================================
